@@ -5,7 +5,7 @@ symbolically.  `pow2`, `be`, `ipow`, `gcd`, `bitlen` ... are spec forms (vf/pyvc
 """
 
 SIG = {'is_floor_quotient': 'bool', 'is_residue': 'bool', 'is_bit_size': 'bool', 'is_byte_size': 'bool', 'is_isqrt': 'bool',
-       'random_top': 'int', 'random_value': 'int', 'candidate': 'int', 'legacy_candidate': 'int'}
+       'random_top': 'int', 'random_value': 'int', 'candidate': 'int', 'legacy_candidate': 'int', 'bits_candidate': 'int'}
 
 
 def is_floor_quotient(a, d, q):
@@ -74,6 +74,12 @@ def legacy_candidate(tid, pos, nbits):
     return (nth(tapei(tid, pos + q, 1), 0) // pow2(8 - r)) * pow2(8 * q) + low
 
 
+def bits_candidate(tid, pos, k):
+    """the integer StrongRandom.getrandbits(k) forms from tape `tid` at cursor `pos`: ceil(k/8) bytes, big-endian, of which the
+    k low-order bits are kept"""
+    return be(tapei(tid, pos, (k + 7) // 8)) % pow2(k)
+
+
 # ---- lemmas (statement = the Contract registered in contracts/_intcommon.py add_lemmas; proved by their own unit)
 
 def lemma_radix_lt(a, b, c, d):
@@ -83,4 +89,14 @@ def lemma_radix_lt(a, b, c, d):
 
 def lemma_radix_ge(a, b, c, d):
     """a >= d, b >= 0, c >= 0  ==>  a*c + b >= d*c"""
+    return True
+
+
+def lemma_ceil_unique(a, b, c):
+    """b > 0, c*b >= a, (c-1)*b < a  ==>  c == (a + b - 1) // b        (the ceiling of a/b is unique)"""
+    return True
+
+
+def lemma_range_index(a, b, c):
+    """b > 0, 0 <= c < (a + b - 1) // b  ==>  c*b < a  and  (c*b) % b == 0     (start + step*c is an element of the range)"""
     return True
